@@ -87,6 +87,41 @@ func StrDom(n int) *Dom[string] {
 	return d
 }
 
+// SK is a struct element/key type (comparable, no natural order): generic
+// code must not depend on the element being a built-in scalar.
+type SK struct {
+	A int
+	B string
+}
+
+func skCmp(a, b SK) int {
+	if c := cmp.Compare(a.A, b.A); c != 0 {
+		return c
+	}
+	return strings.Compare(a.B, b.B)
+}
+
+var skCmps = []NamedCmp[SK]{
+	{"natural", skCmp},
+	{"reversed", func(a, b SK) int { return skCmp(b, a) }},
+	{"by-A-only", func(a, b SK) int { return cmp.Compare(a.A, b.A) }}, // many ties between distinguishable keys
+	{"natural-unnormalised", func(a, b SK) int { return skCmp(a, b) * (1 + 131*(len(a.B)+len(b.B)+1)) }},
+}
+
+// StructDom: n alphabet values {A: i/2*6, B: "x" or "y"}; probes lie between.
+func StructDom(n int) *Dom[SK] {
+	d := &Dom[SK]{Name: "struct", Cmps: skCmps, Fmt: func(v SK) string { return fmt.Sprintf("{%d %q}", v.A, v.B) }}
+	for i := 0; i < n; i++ {
+		d.Alpha = append(d.Alpha, SK{(i / 2) * 6, []string{"x", "y"}[i%2]})
+		d.Probe = append(d.Probe, SK{(i/2)*6 + 3, "p"})
+	}
+	d.Probe = append(d.Probe, SK{-3, ""}, SK{n*6 + 50, "zz"}, SK{math.MinInt, "x"}, SK{math.MaxInt, "y"})
+	d.Wide = func(r *core.R) SK { return SK{r.Intn(1<<20) * 6, []string{"x", "y", ""}[r.Intn(3)]} }
+	return d
+}
+
+func structKey(i int) SK { return SK{(i / 2) * 6, []string{"x", "y"}[i%2]} }
+
 func (d *Dom[T]) Val(r *core.R) T { return d.Alpha[r.Intn(len(d.Alpha))] }
 
 func (d *Dom[T]) Vals(r *core.R, n int) []T {
@@ -245,6 +280,13 @@ func sortedStrings(m map[string]bool) []string {
 	}
 	sort.Strings(out)
 	return out
+}
+
+func btoi(b bool) int {
+	if b {
+		return 1
+	}
+	return 0
 }
 
 func tierN(tier string, quick, thorough int) int {
